@@ -16,7 +16,7 @@ CONFIRMED_FALLBACKS = {
     # any scratch buffer of this function (today: the sampling buffer and the sort buffer), however it is allocated: the rule below checks
     # what matters, namely that the value returned on the failure edge is not `count`
     ("varintAdaptiveCountUnique", "*"): "scratch buffers: on failure the function returns count-1 ('not all unique'), which can never satisfy the selector's BITMAP guard uniqueCount == count (C06-A3); every other selectable codec is lossless whatever the estimate",
-    ("varintBitmapAddRange", "malloc#1"): "single-run shortcut: on failure nothing has been modified and the function falls through to element-wise insertion, which yields the same set",
+    ("varintBitmapAddRange", "*"): "single-run shortcut: on failure nothing has been modified and the function falls through to element-wise insertion, which yields the same set (checked: the failure edge reaches the varintBitmapAdd loop)",
     ("varintBitmapRemove", "bitmapToArray_#1"): "failed shrink BITMAP->ARRAY: the element has already been removed from the bitmap container, which stays valid; returning true is correct",
 }
 ANCHORS = ["varintDictCreate", "varintDictBuild", "varintDictDecode", "varintDictDecodeInto", "varintPFORComputeThreshold",
@@ -60,6 +60,15 @@ def analyse(mod, run, label, fallbacks=CONFIRMED_FALLBACKS, overrides=FAIL_OVERR
                 if bad and key in fallbacks:
                     run.ok("R2-failure-reported", {"fn": fn.name, "site": s.name(), "at": where, "confirmed_fallback": fallbacks[key]})
                     fallback = True
+                    if fn.name == "varintBitmapAddRange":
+                        # the shortcut's failure is only harmless because the element-wise path still runs
+                        reach_add = False
+                        for (sb_, _tb) in fa.null_edges.get(k, []):
+                            for bid in fn.reachable(_tb) | {_tb}:
+                                blk_ = fn.bmap[bid]
+                                if any(c_.op == "call" and (c_.get("callee") == "varintBitmapAdd" or any(h_.op == "call" and h_.get("callee") == "varintBitmapAdd" for h_ in (mod.fn(c_.get("callee") or "").insts() if mod.fn(c_.get("callee") or "") is not None and mod.fn(c_.get("callee") or "").internal else []))) for c_ in blk_.insts): reach_add = True
+                        run.check(reach_add, "R2-fallback-still-adds-the-range", {"fn": fn.name, "site": s.name()},
+                                  Finding("R2-fallback-drops-the-range", fn.name, s.name(), "fallback", "when the single-run allocation fails varintBitmapAddRange no longer reaches the element-wise insertion: the range is silently not added", loc=where))
                     if fn.name == "varintAdaptiveCountUnique":
                         # the fallback is only correct as long as it cannot make the BITMAP guard `uniqueCount == count` true
                         cp = fn.param_index("count"); fi_ = w.fi(fn).prepare()
